@@ -9,6 +9,7 @@ import collections
 import collections.abc as A
 import copy
 import random
+import types
 import typing as T
 
 from ..common import Explore, Failure
@@ -767,7 +768,7 @@ def signal_oracle(ex, rejecting, fail):
                     if cul is not None and not (cul and (cul[0] is x or cul[0] == repr(x) or isinstance(cul[0], str))):
                         fail(f'C03:culprits:{kind}:{shape(hm)}', f'culprits {cul!r:.120} do not begin with the rejected object {x!r:.60}', rp)
                 plain = ansi.sub('', msg)
-                named = repr(h) in plain or (T.get_origin(h) is T.Union and all(
+                named = repr(h) in plain or ((T.get_origin(h) is T.Union or isinstance(h, types.UnionType)) and all(
                     (a.__name__ if isinstance(a, type) else repr(a)) in plain for a in T.get_args(h)))
                 if verb is not BeartypeViolationVerbosity.MINIMAL and not named and kind == 'door':
                     fail(f'C03:message:{kind}:{shape(hm)}', f'violation message does not name the hint {h!r:.140}: {plain[:200]!r}', rp)
